@@ -51,3 +51,17 @@ Theorem C08_whole_image_module_list : forall c dirs lg s',
     In (Image.T_MODULES, {| MemWriter.l_rva := N.of_nat off; MemWriter.l_size := (4 + N.of_nat (Image.MODULE_SZ * length rs))%N |}) dirs.
 Proof. exact ImageThreads.image_module_list. Qed.
 Print Assumptions C08_whole_image_module_list.
+
+(* End to end (structural model -> image): whenever the modules of the content realise [module_list] of a world (same base,
+   32-bit size, identifier, effective name), the module list of the FINAL image has one record per model module, in the model's
+   order, each with that base and size, the location of exactly the effective name and - if there is an identifier - of exactly the
+   CodeView record holding it. *)
+Theorem C08_whole_image_module_list_of_world : forall c maps tbl users dirs lg s',
+  Image.image c MiniDump.empty_wst = MemWriter.Ok ((dirs, lg), s') -> Hoare.small (Hoare.blen s') ->
+  Forall2 ImageThreads.realises_module (Image.ic_modules c) (module_list maps tbl users) ->
+  exists rs off,
+    Forall2 (ImageThreads.record_says_module (Writer.w_buf s')) rs (module_list maps tbl users) /\
+    Bytes.slice (Writer.w_buf s') off (4 + Image.MODULE_SZ * length rs) = Bytes.le 4 (N.of_nat (length rs)) ++ concat (map Image.enc_module rs) /\
+    In (Image.T_MODULES, {| MemWriter.l_rva := N.of_nat off; MemWriter.l_size := (4 + N.of_nat (Image.MODULE_SZ * length rs))%N |}) dirs.
+Proof. exact ImageThreads.image_module_list_of_world. Qed.
+Print Assumptions C08_whole_image_module_list_of_world.
